@@ -201,7 +201,11 @@ def timestamps(rng, n, step, mode="regular", tf_s=None, base=None, max_gap_bucke
 def make_rows(rng, n, family="walk", step=60, ts_mode="regular", tf_s=None, base=None, max_gap_buckets=40):
     pr = prices(rng, n, family)
     ts = timestamps(rng, n, step, ts_mode, tf_s, base, max_gap_buckets)
-    return [[t.isoformat(), o, h, l, c, v] for t, (o, h, l, c, v) in zip(ts, pr)]
+    rows = [[t.isoformat(), o, h, l, c, v] for t, (o, h, l, c, v) in zip(ts, pr)]
+    for i in range(1, len(rows)):
+        if rows[i][0] == rows[i - 1][0] and rng.random() < 0.35:
+            rows[i] = list(rows[i - 1])  # an exact re-send of the previous candle: still a candle of the stream (its volume counts)
+    return rows
 
 
 def rows_from(pr, ts):
